@@ -455,6 +455,36 @@ def _run_two_scopes(griffe, acc):
             acc.violation("strings/second-load-same-module-path", f"loading the same module path twice (postponed evaluation {outs[0][0]} then {outs[1][0]}): annotations stored as {norm}, expected {want}", case, None, size=2)
 
 
+CHAIN_HEAD = "import os.path\nimport collections.abc as cabc\nclass Outer:\n    class Middle:\n        class Inner:\n            class Leaf: ...\n"
+CHAINS = [("Outer.Middle", ["m.Outer", "m.Outer.Middle"]), ("Outer.Middle.Inner", ["m.Outer", "m.Outer.Middle", "m.Outer.Middle.Inner"]),
+          ("Outer.Middle.Inner.Leaf", ["m.Outer", "m.Outer.Middle", "m.Outer.Middle.Inner", "m.Outer.Middle.Inner.Leaf"]),
+          ("os.path.join", ["os", "os.path", "os.path.join"]), ("cabc.Sequence.register", ["collections.abc", "collections.abc.Sequence", "collections.abc.Sequence.register"]),
+          ("list[Outer.Middle.Inner]", ["list", "m.Outer", "m.Outer.Middle", "m.Outer.Middle.Inner"]), ("Outer.Middle.Inner | Outer.Middle | None", ["m.Outer", "m.Outer.Middle", "m.Outer.Middle.Inner", "m.Outer", "m.Outer.Middle"])]
+
+
+def _run_chains(griffe, acc):
+    """Dotted chains of two, three and four names in every storage slot: every name element resolves to the object the chain reaches up to that name (each name through the one before it)."""
+    for text, want in CHAINS:
+        for slot in SLOTS:
+            body = {"value": f"x = {text}", "annotation": f"y: {text} = 0", "param-default": f"def f(p={text}): ...", "param-annotation": f"def f(p: {text}): ...", "returns": f"def f(p) -> {text}: ...",
+                    "decorator": f"@({text})\ndef g(): ...", "base": f"class K({text}): ...", "class-decorator": f"@({text})\nclass KD: ..."}[slot]
+            if slot == "base" and ("|" in text or "[" in text):
+                continue
+            mod = griffe.visit("m", filepath=Path("m.py"), code=CHAIN_HEAD + body + "\n")
+            stored = _stored(mod, slot)
+            case = {"family": "chains", "expression": text, "slot": slot}
+            try:
+                got = [n.canonical_path for n in stored.iterate(flat=True) if type(n).__name__ == "ExprName"]
+            except Exception as e:  # noqa: BLE001
+                got = "raise " + type(e).__name__
+            ok = got == want and str(stored).replace(" ", "") == text.replace(" ", "")
+            acc.case(case, outcome="chains:" + ("ok" if ok else "bad"), nontrivial=True)
+            acc.observe(got)
+            if not ok:
+                n = max(len(t.split(".")) for t in text.replace("[", " ").replace("]", " ").replace("|", " ").split())
+                acc.violation(f"names/chain-resolution/{slot}/{min(n, 4)}-names", f"`{text}` in {slot}: name elements resolve to {got}, the chain reaches {want} (rendered {str(stored)!r})", case, None, size=len(text))
+
+
 def run_shard(shard, tier):
     boot.boot()
     import griffe
@@ -462,6 +492,7 @@ def run_shard(shard, tier):
     acc = Acc()
     if shard == 0:
         _run_strings(griffe, acc)
+        _run_chains(griffe, acc)
     if shard == 1:
         _run_two_scopes(griffe, acc)
     for idx, tree in enumerate(X.enumerate_trees(tier)):
